@@ -96,7 +96,7 @@ def finder_resolve(root, q):
                 return None
             search = list(spec.submodule_search_locations)
     origin = spec.origin
-    if origin.endswith('__init__.py'):
+    if os.path.basename(origin) == '__init__.py':
         return os.path.dirname(origin)
     return origin
 
@@ -112,8 +112,24 @@ def _one(raw):
     from xdoctest.utils import util_import
     from xdoctest import static_analysis, core
     tree, resolves, splits, walks = tlaval.parse_value(raw)
-    tree = {tuple(k): v for k, v in (tree.items() if isinstance(tree, dict) else [])}
     rot = (zlib.crc32(raw.encode()) + _JOB['seed']) % 100003
+    # the abstract names are written several ways: a module or package name may END in __init__ / __main__ without being one
+    ren = {'b': ['b', 'test__init__', 'b', 'run__main__'][rot % 4], 'c': ['c', 'c__init__'][(rot // 4) % 2]}
+
+    def rn(v):
+        if isinstance(v, str):
+            return ren.get(v, v)
+        if isinstance(v, tuple):
+            return tuple(rn(x) for x in v)
+        if isinstance(v, list):
+            return [rn(x) for x in v]
+        if isinstance(v, (set, frozenset)):
+            return frozenset(rn(x) for x in v)
+        if isinstance(v, dict):
+            return {rn(k): rn(x) for k, x in v.items()}
+        return v
+    tree, resolves, splits, walks = rn(tree), rn(resolves), rn(splits), rn(walks)
+    tree = {tuple(k): v for k, v in (tree.items() if isinstance(tree, dict) else [])}
     root = os.path.join(_JOB['dir'], 't%d_%08x' % (os.getpid(), zlib.crc32(raw.encode())))
     os.makedirs(root)
     bad = []
@@ -298,7 +314,7 @@ def _one(raw):
                     finally:
                         sys.stdout = old
                 gotmods = sorted({os.path.relpath(e.modpath, root) for e in exs})
-                expmods = sorted({os.path.relpath(x, root) if not x.endswith('__init__.py') else os.path.relpath(os.path.dirname(x), root) for x in exp})
+                expmods = sorted({os.path.relpath(x, root) if os.path.basename(x) != '__init__.py' else os.path.relpath(os.path.dirname(x), root) for x in exp})
                 gotmods = sorted({m[:-len('/__init__.py')] if m.endswith('/__init__.py') else m for m in gotmods})
                 if gotmods != expmods:
                     bad.append(('collected_modules[%s]' % '/'.join(p), expmods, gotmods))
